@@ -157,3 +157,38 @@ Theorem C08_c_dtw_distance_ndim_euclidean_accesses_in_bounds :
   snd (c_dtw_distance_ndim_euclidean cub junk (List.concat s1) (Z.of_nat (List.length s1)) (List.concat s2) (Z.of_nat (List.length s2)) (Z.of_nat d)
                       md mld (Cost.Fin m) oub (Cost.Fin p) (Z.of_nat p1b) (Z.of_nat p1e) (Z.of_nat p2b) (Z.of_nat p2e) prune window) = true.
 Proof. exact c_dtw_distance_ndim_euclidean_in_bounds. Qed.
+
+(* THE WARPING-PATHS KERNEL AS WRITTEN (Gen_cwpsk.v: dtw_warping_paths_ndim regenerated whole, one conjunct
+   `0 <= index < size` in the flag for every read and write of the compact array and of the two series): run without a
+   bound on ANY buffer of (l1+1) * width cells, the flag is true at the end -- no access of the four row regions, of the
+   skip/fill loops or of the coordinate loop leaves its array -- and the array still has (l1+1) * width cells. *)
+From DV Require Import Engines Dtw CWps CWpsFinal.
+From DVGen Require Import Gen_cwps Gen_cwpsk.
+
+Theorem C08_c_wps_kernel_accesses_in_bounds :
+  forall (window p m mld : Z) (psi : (nat * nat) * (nat * nat)), (0 <= window)%Z ->
+  let usq := c_to_u (cs_of window p m mld psi SqEuclid) in
+  forall (s1 s2 : list Dtw.point) (d : nat),
+  (forall q, In q s1 -> List.length q = d) -> (forall q, In q s2 -> List.length q = d) ->
+  (1 <= List.length s1)%nat -> (1 <= List.length s2)%nat ->
+  (psi_1b usq <= List.length s1)%nat -> (psi_2b usq <= List.length s2)%nat ->
+  forall ce shiftf ced1 ced2 (wps0 : list Cost.cost) psi_neg idist zp1e zp2e,
+  let l1 := Z.of_nat (List.length s1) in let l2 := Z.of_nat (List.length s2) in
+  let W := cw_width l1 l2 window in
+  Z.of_nat (List.length wps0) = ((l1 + 1) * W)%Z -> (idist =? 1)%Z = false ->
+  let res := c_dtw_warping_paths_ndim ce shiftf ced1 ced2 wps0 (List.concat s1) l1 (List.concat s2) l2 false true psi_neg (Z.of_nat d)
+      ((l1 + 1) * W)%Z (c_parts_ldiff l1 l2) (c_parts_ldiffr l1 l2 (c_parts_ldiff l1 l2))
+      (c_parts_ldiffc l1 l2 (c_parts_ldiff l1 l2)) (c_parts_window l1 l2 window) W ((l1 + 1) * W)%Z
+      (c_parts_ri1 l1 (c_parts_overlap_left l1 (c_parts_ldiffr l1 l2 (c_parts_ldiff l1 l2)) (c_parts_window l1 l2 window))
+                      (c_parts_overlap_right l1 (c_parts_ldiffr l1 l2 (c_parts_ldiff l1 l2)) (c_parts_window l1 l2 window)))
+      (c_parts_ri2 l1 (c_parts_overlap_left l1 (c_parts_ldiffr l1 l2 (c_parts_ldiff l1 l2)) (c_parts_window l1 l2 window)))
+      (c_parts_ri3 l1 (c_parts_overlap_left l1 (c_parts_ldiffr l1 l2 (c_parts_ldiff l1 l2)) (c_parts_window l1 l2 window))
+                      (c_parts_overlap_right l1 (c_parts_ldiffr l1 l2 (c_parts_ldiff l1 l2)) (c_parts_window l1 l2 window)))
+      (adj_max_step usq) Cost.Inf (Cost.Fin (adj_penalty usq)) idist false (Z.of_nat (psi_1b usq)) zp1e (Z.of_nat (psi_2b usq)) zp2e false in
+  snd res = true /\ Z.of_nat (List.length (snd (fst res))) = ((l1 + 1) * W)%Z.
+Proof.
+  intros window p m mld psi Hw usq s1 s2 d Hd1 Hd2 H1 H2 Hp1 Hp2 ce shiftf ced1 ced2 wps0 psi_neg idist zp1e zp2e l1 l2 W HL Hid res.
+  destruct (c_wps_kernel_stores_spec_matrix window p m mld psi Hw s1 s2 d Hd1 Hd2 H1 H2 Hp1 Hp2
+              ce shiftf ced1 ced2 wps0 psi_neg idist zp1e zp2e HL Hid) as (wps' & E & HLen & _).
+  subst res l1 l2 W usq. rewrite E. cbn [fst snd]. split; [reflexivity|exact HLen].
+Qed.
